@@ -14,6 +14,9 @@ ADDED = {
  "C10_1": "`Bounded` watchdog guard around every close call (the hang used to be *inconclusive*)",
  "C10_2": "pending blocking / asynchronous dial operations in `c10_close`",
  "C10_3": "`Bounded` watchdog guard (as C10_1)",
+ "C10_5": "extra peers arriving through a slow ADD_POST callback in `c10_close` (connections parked between negotiation and accept)",
+ "C14_4": "scenario `c14_subset` (subsets of the pipe events registered, registrations dropped while a pipe is up)",
+ "C14_5": "scenario `c14_churn` (listener closed and replaced while dialers redial)",
  "C12_1": "scenario `c12_mixed` (per-context resend times)",
  "C12_2": "`c12_mixed`: connections refused in ADD_PRE + bounded send (C14 caught it unchanged)",
  "C12_3": "option read-back mismatch made non-fatal in `c12_*` (it was reported as a harness error, exit 2)",
